@@ -1122,6 +1122,73 @@ def run_reuse(case):
     return r
 
 
+def run_misspec_chain(case):
+    """A real BSL run with the misspecification-adjusted likelihood: every time the gamma slice sampler is entered, the
+    sample moments and the log-likelihood it is given must be those of ONE set of simulated summaries the run produced
+    (mean, covariance and the published R-BSL-M / R-BSL-V value at the gamma in force)."""
+    import elfi
+    import elfi.methods.bsl.pdf_methods as pm
+    import elfi.methods.inference.bsl as bslmod
+    from .. import models
+    models.native_client()
+    adj = case['adjustment']
+    sims, calls = [], []
+    orig_lik = pm.syn_likelihood_misspec
+    orig_samplers = {'mean': bslmod.slice_gamma_mean, 'variance': bslmod.slice_gamma_variance}
+
+    def lik(ssx, ssy, *a, **kw):
+        sims.append(np.array(ssx, dtype=float, copy=True))
+        return orig_lik(ssx, ssy, *a, **kw)
+
+    def make(name):
+        def sampler(ssy, *a, **kw):
+            calls.append({'n_sims': len(sims), 'loglik': kw.get('loglik'), 'gamma': np.array(kw.get('gamma'), dtype=float, copy=True),
+                          'mean': None if kw.get('sample_mean') is None else np.array(kw['sample_mean'], dtype=float, copy=True),
+                          'cov': None if kw.get('sample_cov') is None else np.array(kw['sample_cov'], dtype=float, copy=True),
+                          'ssy': np.array(ssy, dtype=float, copy=True)})
+            return orig_samplers[name](ssy, *a, **kw)
+        return sampler
+    pm.syn_likelihood_misspec = lik
+    bslmod.slice_gamma_mean, bslmod.slice_gamma_variance = make('mean'), make('variance')
+    try:
+        m = elfi.ElfiModel(name='c20mis')
+        elfi.Prior('uniform', 0, 2, model=m, name='t1')
+        elfi.Prior('uniform', 1, 2, model=m, name='t2')
+        elfi.Simulator(sim_two, m['t1'], m['t2'], observed=np.array([[0.9, 2.4]]), model=m, name='sim')
+        elfi.Summary(summ_two, m['sim'], model=m, name='S')
+        bsl = elfi.BSL(m, n_sim_round=case['nsr'], feature_names='S', likelihood=pm.robust_likelihood(adj),
+                       batch_size=case['nsr'], seed=case['seed'])
+        bsl.sample(case['n'], sigma_proposals=np.diag([0.3, 0.3]) ** 2, params0=np.array([1.0, 2.0]), bar=False)
+    finally:
+        pm.syn_likelihood_misspec = orig_lik
+        bslmod.slice_gamma_mean, bslmod.slice_gamma_variance = orig_samplers['mean'], orig_samplers['variance']
+        del _REUSE_SIMS[:]
+    if not sims:
+        raise RuntimeError('C20 harness: the misspecification-adjusted likelihood was never called (interception lost)')
+    judged = 0
+    for k, c in enumerate(calls):
+        if c['mean'] is None or c['cov'] is None:
+            continue
+        what = {'case': case, 'gamma_sampler_call': k}
+        hit = None
+        for X in sims[:c['n_sims']]:
+            if np.allclose(X.mean(0), c['mean'], rtol=1e-12, atol=0) and \
+                    np.allclose(np.atleast_2d(np.cov(X, rowvar=False)), np.atleast_2d(c['cov']), rtol=1e-10, atol=0):
+                hit = X
+        if hit is None:
+            return bad('C20:misspec-chain:gamma-sampler-moments-are-not-those-of-a-simulated-set:' + adj,
+                       dict(what, mean=c['mean'].tolist(), cov=np.asarray(c['cov']).tolist(),
+                            last_simulated_mean=sims[c['n_sims'] - 1].mean(0).tolist()))
+        ref, tol = R.misspec_ref(hit, c['ssy'].reshape(-1), c['gamma'], adj)
+        if c['loglik'] is None or not abs(_scalar(c['loglik']) - ref) <= max(tol, 1e-9 * max(1.0, abs(ref))):
+            return bad('C20:misspec-chain:current-log-likelihood-is-not-the-adjusted-likelihood-of-the-current-summaries:' + adj,
+                       dict(what, got=None if c['loglik'] is None else _scalar(c['loglik']), expected=float(ref)))
+        judged += 1
+    r = ok(outcome=digest((adj, case['seed'], judged)), trivial=judged == 0, misspec_chain_gamma_updates=judged)
+    r.update(evals=max(1, judged), distinct=max(1, judged))
+    return r
+
+
 KNOWN_STATE_KEYS = {'logposterior', 'logprior', 'n_batches', 'n_samples', 'n_sim', 'n_sim_round', 'params', 'round', 'gamma'}
 
 
@@ -1138,7 +1205,7 @@ def state_layout():
         return None
 
 
-RUNNERS = {'reuse': run_reuse, 'standard': run_standard, 'unbiased': run_unbiased, 'misspec': run_misspec, 'semiparam': run_semiparam,
+RUNNERS = {'reuse': run_reuse, 'misspec-chain': run_misspec_chain, 'standard': run_standard, 'unbiased': run_unbiased, 'misspec': run_misspec, 'semiparam': run_semiparam,
            'transform': run_transform, 'ratio': run_ratio, 'process': run_process, 'tree': run_tree, 'path': run_path}
 
 
@@ -1363,13 +1430,19 @@ def run(ctx):
                  for a in orders for b in orders for k in range(1 if q else 3)]
         _record_with_witness(ctx, _guard(run_reuse), cases, 'mh-reuse', sample_every=max(1, len(cases) // 2))
 
+    # ---------------------------------------------------------------- misspec-chain (robust BSL on the public path)
+    if want('misspec-chain'):
+        cases = [{'kind': 'misspec-chain', 'adjustment': adj, 'seed': base + k, 'n': 25 if q else 80, 'nsr': nsr}
+                 for adj in ('mean', 'variance') for nsr in ((6,) if q else (4, 6, 12)) for k in range(2 if q else 5)]
+        _record_with_witness(ctx, _guard(run_misspec_chain), cases, 'misspec-chain', sample_every=max(1, len(cases) // 2))
+
     ctx.rule = (
         'likelihood sections: product (n,d) x explicit matrix x whitening x shrinkage, each case enumerates its ssy grid '
         '(x gamma grid) itself, evaluations = calls of the real likelihood function, every sub-case distinct by content; '
         'transform / mh-ratio / mh-process: product over tuples of bound-row types, each case enumerates its point grid; '
         'mh-step / mh-chain: one case = the complete tree of environment answer sequences of one configuration explored '
         'with vmc.explore (evaluations = executions of the real step methods, distinct = distinct answer sequences); '
-        'mh-reuse: all ordered pairs of parameter orders for two sample() calls on one object (real random stream, seeded); '
+        'mh-reuse: all ordered pairs of parameter orders for two sample() calls on one object (real random stream, seeded); misspec-chain: adjustment x n_sim_round x seed, a real robust-BSL run whose gamma updates are judged one by one; '
         'non-trivial = the oracle compared a value (near-singular Ghurye-Olkin points and u==prob ties are counted apart)')
     ctx.assumptions += [
         'matrices are integer / half-integer valued with variances >= 0.5 and covariance eigenvalue ratio >= 0.04; ssy on '
@@ -1385,7 +1458,7 @@ def run(ctx):
         'forward(back(y)) atol 1e-9 for |y| <= 8; Jacobian by central differences h=1e-5, atol 1e-6',
         'MH: the exponent clip at +-700 of the implementation is accepted (ratio for a -inf likelihood may be '
         'exp(-700) instead of 0); u == prob ties (1e-9 relative) accept either decision; prior support [0,4] '
-        '(uniform or truncated normal); the gamma sampler of the misspecified variants is not explored',
+        '(uniform or truncated normal); the slice sampler for gamma itself is not explored (only what it is given: the moments and the adjusted log-likelihood of the current summaries)',
         'mh-step: the chain state after initialisation is filled by the harness in the layout of BSL._init_state, '
         'then _init_round / prepare_new_batch / update are the real methods; mh-chain runs the real sample() loop on the '
         'in-process client with max_parallel_batches default',
